@@ -17,10 +17,12 @@ import (
 // Part B (c09_chain_test.go, c09_loop_test.go, c09_held_test.go,
 // c09_replace_test.go): real mangos.Device chains with concurrent clients,
 // forwarding loops that must die out, chains whose cooked server holds several
-// requests at once, and chains in which connections go away and are replaced.
+// requests at once, chains in which connections go away and are replaced, and
+// (c09_fan_test.go) SURVEY chains with several respondents behind them whose
+// responses the application collects in its own time.
 
 type c09Spec struct {
-	Kind string `json:"kind"` // grid | opt | chain | loop | slow | held | replace
+	Kind string `json:"kind"` // grid | opt | chain | loop | slow | held | replace | fan
 
 	// grid / opt
 	Recv string `json:"recv,omitempty"` // rep xrep respondent xrespondent xpair1 pair1 xstar star
@@ -42,9 +44,10 @@ type c09Spec struct {
 
 	// loop
 	TTL2 int `json:"ttl2,omitempty"` // TTL of the second receiver in the cycle
-	N    int `json:"n,omitempty"`    // messages sent round the loop; replace: connections replaced one after the other
+	N    int `json:"n,omitempty"`    // messages sent round the loop; replace: connections replaced one after the other; fan: respondents behind the chain
 
 	// replace (chain in which a connection goes away and is replaced by a new one)
+	// fan: how the surveyor application collects the responses (eager | late | each)
 	How string `json:"how,omitempty"` // pipe (one end closes the connection, the dialler re-establishes it) | restart (a node is closed and a new one takes its place) | make-first (the new server is attached before the old one is closed)
 }
 
@@ -93,6 +96,7 @@ func TestC09(t *testing.T) {
 	cases = append(cases, c09LoopCases(r, rnd)...)
 	cases = append(cases, c09HeldCases(r, rnd)...)
 	cases = append(cases, c09ReplaceCases(r, rnd)...)
+	cases = append(cases, c09FanCases(r, rnd)...)
 
 	for i := 0; i < r.Pick(3, 30); i++ {
 		cases = append(cases, mon.CaseSpec{Name: "slow-receiver", Spec: c09Spec{Kind: "slow", TTL: i % 3}})
@@ -121,6 +125,8 @@ func TestC09(t *testing.T) {
 			c09Held(c, sp)
 		case "replace":
 			c09Replace(c, sp)
+		case "fan":
+			c09Fan(c, sp)
 		default:
 			panic(fmt.Sprintf("c09: kind %q", sp.Kind))
 		}
